@@ -118,6 +118,12 @@ static Plan gen_c17(uint64_t seed, const std::string &tier) {
             if (len > logmax) len = logmax;
             if (len > 200000) len = r.chance(1, 8) ? len : 66000;
             std::string a = m; if ((long)a.size() > len) a = a.substr(0, (size_t)len); else a += std::string((size_t)(len - (long)a.size()), (char)('a' + mk % 26));
+            // a record is whatever the arguments contain: embedded newlines (sh -c with a multi-line script), arbitrary bytes
+            if (a.size() > m.size() + 1) switch (r.below(4)) {
+            case 0: { int k = (int)r.range(1, 5); for (int q = 0; q < k; q++) a[(size_t)r.range((int64_t)m.size(), (int64_t)a.size() - 1)] = '\n'; if (r.chance(1, 2)) a.back() = '\n'; break; }
+            case 1: for (size_t q = m.size(); q < a.size(); q++) if (r.chance(1, 40)) a[q] = (char)r.range(1, 255); break;
+            default: break;
+            }
             e.argv = {a}; e.success = false; e.err = 2; e.ret = -1;
             calls.push_back(e);
         }
